@@ -410,9 +410,13 @@ func c16GenPool(r *common.Rand, n int) ([]common.JEvent, []string) {
 	}
 	dvals := []string{"", "a", "b"}
 	evs := make([]common.JEvent, n)
+	extreme := r.Chance(10) // one pool in ten: created_at values at the ends of int64
 	for i := 0; i < n; i++ {
 		e := common.JEvent{ID: ids[i], PK: common.Pick(r, c16Authors), TS: int64(r.Intn(7)), Kind: common.Pick(r, c16CacheKinds),
 			Tags: [][]string{}, Content: common.Pick(r, c16Contents), Sig: common.Pick(r, []string{"", "sig1", "sig2"})}
+		if extreme && r.Chance(35) {
+			e.TS = common.Pick(r, common.ExtremeTS)
+		}
 		for k := r.Intn(3); k > 0; k-- {
 			switch r.Intn(5) {
 			case 0:
